@@ -397,3 +397,5 @@ def r17_8(cx):
 
 
 RULES = [('R17.1', r17_1), ('R17.2', r17_2), ('R17.3', r17_3), ('R17.4', r17_4), ('R17.5', r17_5), ('R17.6', r17_6), ('R17.7', r17_7), ('R17.8', r17_8)]
+RULES.append(('R17.9', scan_rule(('owning_iovec::byte_arena::', 'owning_iovec::implementation::'))))
+FLOORS['R17.9'] = 1
